@@ -157,6 +157,11 @@ def gen_fit(rng, quick=True):
         "circuit": family_cdc(family, start),
         "kwargs": {"method": methods, "weight": weights},
     }
+    if rng.random() < 0.18:
+        # a tiny evaluation budget: every weight of one method ends at the same point, so the pseudo
+        # chi-squared values tie *exactly* between different (method, weight) labels - the case in which
+        # arrival order could decide the winner
+        wl["kwargs"]["max_nfev"] = rng.choice([1, 2, 3])
     return wl
 
 
